@@ -116,6 +116,29 @@ def leaf_family(ctx, n, spread=6, pinv=0.25, tries=200):
     raise RuntimeError("could not generate a general-position family")
 
 
+def scaled_family(ctx, n, scales=(F(1, 50000), F(1, 20000), F(1, 5000), F(1, 200), F(1000)), pinv=0.25, tries=300):
+    """n integer-coordinate polygons jointly in general position, all multiplied by one exact scale factor (drawings in other
+    units).  Integer coordinates keep every crossing point's denominator below 10^9 after scaling, so results stay exact."""
+    rng = ctx.rng
+    k = rng.choice(scales)
+    for _ in range(tries):
+        vss = [gen.star_polygon(rng, rng.randint(3, 7), rng.choice([12, 20, 30]), rng.randint(-15, 15), rng.randint(-15, 15), den=1) for _ in range(n)]
+        if any(len(set(vs)) != len(vs) for vs in vss):
+            continue
+        if ctx.drv.ask("genpos " + core.elist(vss, core.epoly)) != "T":
+            continue
+        out = []
+        for vs in vss:
+            if gen.area2(vs) < 0:
+                vs = vs[::-1]
+            if rng.random() < pinv:
+                vs = vs[::-1]
+            out.append([(x * k, y * k) for x, y in vs])
+        ctx.count("scale:" + str(k))
+        return out, k
+    raise RuntimeError("could not generate a scaled general-position family")
+
+
 def shape_tokens_of_vertices(vs):
     return "S " + core.epoly(vs)
 
